@@ -194,11 +194,11 @@ def gen_exact_cases(chk):
     cases = []
     for n in range(2, 10):
         cases.append({'op': 'weights', 'n': n, 'k': n, 'order': n - 1, 'kind': '-', 'style': '-', 'twist': '-', 'table': '-'})
-    for k in range(60 if big else 15):
+    for k in range(150 if big else 15):
         c = gen_case(rng, k + 100, chk.tier)
         c['op'] = 'theta'
         cases.append(c)
-    for k in range(300 if big else 50):
+    for k in range(750 if big else 50):
         c = gen_case(rng, k, chk.tier)
         c['op'] = 'grad'
         c['extra'] = (k % 4 == 1)
@@ -273,7 +273,7 @@ def gen_object_cases(chk):
     rng = random.Random(chk.seed * 104729 + 13)
     big = chk.tier == 'thorough'
     cases = []
-    for k in range(50 if big else 10):
+    for k in range(120 if big else 10):
         order = 2 + k % 5
         degq = 3 if (k // 5) % 2 == 0 else rng.choice([1, 2, 4, 5])
         uni = [True, not (k % 4 == 3), True, True]
@@ -517,10 +517,33 @@ def run():
 
 
 def replay(path):
+    """re-execute the recorded exact case against the current tree (cases are regenerated from seed and tier);
+    failures recorded on real objects (float link) are replayed by re-running the check with the same seed"""
     core.setup_paths()
-    body = json.load(open(path))
-    print(json.dumps({k: body[k] for k in ('property', 'key', 'what')}, indent=1))
     import os
+    body = json.load(open(path))
+    print(json.dumps({k: body[k] for k in ('property', 'key', 'what')}, indent=1)[:2000])
     os.environ['VERIF_SEED'] = str(body.get('seed'))
     os.environ['VERIF_TIER'] = str(body.get('tier'))
+    rc = body.get('replay', {}).get('case', {}) if isinstance(body.get('replay'), dict) else {}
+    if isinstance(rc, dict) and 'k' in rc and 'op' in rc:
+        chk = core.Check('C13', 'proof')
+        chk.seed, chk.tier = int(body['seed']), body['tier']
+        hit = [c for c in gen_exact_cases(chk) if c['k'] == rc['k'] and c['op'] == rc['op']]
+        if hit:
+            c = hit[0]
+            r = exact_case(c)
+            m = core.model(model_lines(c))
+            print('implementation:', str(r['impl'])[:600])
+            print('model         :', str(m[0])[:600])
+            print('failed direct oracles:', r['orc'])
+            impl = r['impl']
+            if isinstance(impl, str) and impl.startswith('ok') and m[0].startswith('ok'):
+                same = (impl == m[0]) if c['op'] == 'weights' else ac.parse_rows(impl) == ac.parse_rows(m[0])
+            else:
+                same = isinstance(impl, str) and impl.split(' ')[:2] == m[0].split(' ')[:2]
+            if isinstance(impl, list):
+                same = all(x.replace(' ', '') == y[2:].replace(' ', '') for x, y in zip(impl, m))
+            print('agree' if same and not r['orc'] else 'STILL FAILING')
+            return 0 if same and not r['orc'] else 1
     return run()
